@@ -12,7 +12,7 @@ class C08(C06):
     LEMMA_FILES = ["FluentProofs/ResolverRefineTop.lean", "FluentProofs/ResolverRefineVal.lean"]
     RULE = ("histories on ONE bundle: every request of a GR bundle issued 2-4 times in random order interleaved with the "
             "other requests (so plural rules are cached and earlier calls have produced errors), the same argument set "
-            "inserted in different orders (also by re-setting a key that is already present), and each request repeated on a FRESH bundle (second bundle case on the same "
+            "(in half of the single-thread histories preceded by a sibling-locale bundle and by a run of the same bundle under another configuration that is then changed back: pre=1) inserted in different orders (also by re-setting a key that is already present), and each request repeated on a FRESH bundle (second bundle case on the same "
             "line). Non-trivial = the history repeats at least one request whose resolution involved a reference, select or "
             "error; distinct = distinct case line.")
     EXPLANATION = ("Theorems: format_pattern and write_pattern of the model coincide (text and errors) for every bundle, "
@@ -36,6 +36,10 @@ class C08(C06):
         cfg = g.config()
         # the caller keeps ONE error list for the whole history ("earlier errors" must not matter)
         warm_cfg = cfg + (";ev=shared" if rng.random() < 0.6 else "")
+        # pre=1: before the history a sibling-locale bundle formats everything, and the bundle under test formats
+        # everything once under another configuration (isolation, transform, formatter) and is re-configured
+        if "fl=st" in cfg and rng.random() < 0.5:
+            warm_cfg += ";pre=1"
         fns = g.fns()
         base = []
         for m in resgen.MSGS:
@@ -62,7 +66,7 @@ class C08(C06):
                 reqs.append("%s:%s:%s" % (hx(m), at, aa))
         rng.shuffle(reqs)
         # cardinal / ordinal alternating at random points of the history
-        nn = rng.choice(["i1", "i2", "i3", "i22", "i4"])
+        nn = rng.choice(["i1", "i2", "i3", "i22", "i4", "i0", "i0"])
         for k in range(rng.randint(2, 6)):
             reqs.insert(rng.randrange(len(reqs) + 1), "%s:~:%s=%s" % (hx("p%d" % (k % 2)), hx("n"), nn))
         if bomb:
@@ -113,6 +117,14 @@ class C08(C06):
                     return "the same request %s gave different results at different points of the history / on a fresh bundle" % (rq.split(":")[0])
                 seen[key] = o
         return None
+
+    def predicate2(self, case, impl_obs, model_obs):
+        """the result is a function of (bundle, pattern, arguments): whatever happened before in the history or in
+        the process, every call must give what the semantics gives for that request alone (the specification's
+        verdict is printed by the model side; same comparison as C07)"""
+        from .c07 import C07
+        why = C07.predicate2(self, case, impl_obs, model_obs)
+        return ("result depends on what happened before: " + why) if why else None
 
     def classify(self, case, impl_obs, dist):
         super().classify(case, impl_obs, dist)
